@@ -145,7 +145,7 @@ Definition parse_step (sv ov : value) : option hstep :=
   match sv, ov with
   | VL [VZ _; VZ action; VZ _],
     VL [VZ sent; VB req; VB rnonce; VB rct; VZ openable; VZ fwd; VZ nrep; VB rep; VB pnonce; VB pct;
-        VZ authok; VB plain; VL cookiesv; VZ intact; VZ cerr; VZ ked; VL poolv; VB k1; VB k2; VZ curk; VL forgedv] =>
+        VZ authok; VB plain; VL cookiesv; VZ intact; VZ cerr; VZ ked; VL poolv; VB k1; VB k2; VZ curk; VL forgedv; VZ nosend] =>
       match parse_facts cookiesv, getBs poolv, getBs forgedv with
       | Some cfs, Some pool, Some forged =>
           Some {| h_action := action;
@@ -153,7 +153,7 @@ Definition parse_step (sv ov : value) : option hstep :=
                               so_forwarded := 0 <? fwd; so_served := 0 <? nrep; so_reply := rep;
                               so_reply_auth := zb authok; so_reply_cookies := cfs; so_intact := zb intact;
                               so_rekeyed := 0 <? ked; so_pool_after := pool; so_c2s := k1; so_s2c := k2;
-                              so_cur_key := curk; so_forged := forged |};
+                              so_cur_key := curk; so_forged := forged; so_nosend := nosend |};
                   h_req_nonce := rnonce; h_req_ct := rct; h_nrep := nrep;
                   h_rep_nonce := pnonce; h_rep_ct := pct; h_rep_plain := plain;
                   h_client_err := zb cerr |}
@@ -237,11 +237,21 @@ Definition step_agree (pre : client) (h : hstep) : bool :=
             (if so_intact o then true else h_client_err h)
         end
     end
-  else
+  else if so_nosend o =? 0 then
+    (* exchangeKeys failed (however the peer misbehaved): f.data = Data{} *)
     match pool pre with
-    | [] => (h_action h =? act_kefail) && negb (so_rekeyed o) && h_client_err h &&
+    | [] => negb (so_rekeyed o) && h_client_err h &&
             bseq post_pool [] && beq (so_c2s o) [] && beq (so_s2c o) []
     | _ => false
+    end
+  else
+    (* FetchData succeeded and took a cookie, the call returned an error before the request left *)
+    let ke_needed := match pool pre with [] => true | _ => false end in
+    let ke := if ke_needed then KeOk ([] :: post_pool) (so_c2s o) (so_s2c o) else KeErr in
+    Bool.eqb ke_needed (so_rekeyed o) && h_client_err h &&
+    match fetch pre ke with
+    | None => false
+    | Some (d, c1) => bseq (pool c1) post_pool && beq (c2s c1) (so_c2s o) && beq (s2c c1) (so_s2c o)
     end.
 
 Definition client_after (h : hstep) : client :=
@@ -290,13 +300,16 @@ Definition glue_srv (a o : list value) : option verdict :=
   match o with
   | [VL [VZ 0]] => Some (relational true true)          (* the request could not be encoded: nothing sent *)
   | [VL [VZ 99]] => Some (relational false false)       (* the process died *)
-  | [VL [VZ 1; VB req; VZ nrep; VB rep; VB pnonce; VB pct; VZ authok; VB plain; VL cookiesv; VB k1; VB k2; VZ curk]] =>
+  | [VL [VZ 1; VB req; VZ nrep; VB rep; VB pnonce; VB pct; VZ authok; VB plain; VL cookiesv; VB k1; VB k2; VZ curk; VZ openz]] =>
       match parse_facts cookiesv with
       | None => None
       | Some cfs =>
           let served := 0 <? nrep in
-          let oracle := (nrep =? 1) && reply_ok req rep (zb authok) cfs k1 k2 (values_or_nil req) curk in
+          let oracle := if zb openz
+                        then (nrep =? 1) && reply_ok req rep (zb authok) cfs k1 k2 (values_or_nil req) curk
+                        else nrep =? 0 (* a cookie under an expired key is refused *) in
           let agree :=
+            if negb (zb openz) then negb served else
             match decode_packet req, plain_cookies (S (length plain)) plain 0 [] with
             | Ok dq, Ok cs =>
                 match d_uid dq, cs with
